@@ -1,4 +1,5 @@
 import PgsVerif.Model.Context
+import PgsVerif.Generated.Code_context_Context
 import PgsVerif.Generated.Code_dir_JoinPath
 import PgsVerif.Generated.Code_dir_OutputPath
 import PgsVerif.Generated.Code_dir_Pop
@@ -64,6 +65,13 @@ theorem tie_params_pre (parent : Ctx) (pf : List Bytes) : (Ctx.pre parent pf).pa
     the new frame holds the *cleaned* directory, resp. the debugger with the prefix pushed -/
 theorem tie_pushDir (c : Ctx) (d : Bytes) :
     c.pushDir d = root_PushDir c d ∧ c.pushDir d = dir_PushDir c d ∧ c.pushDir d = prefix_PushDir c d := ⟨rfl, rfl, rfl⟩
+/-- **the constructor**: a root context holds the CLEANED output path it was given, and the parameters -/
+theorem tie_Context (output : Bytes) (params : Nat) : mkRoot output params = context_Context params output := rfl
+
+/-- … so the root's output path is clean whatever was passed (`out/`, `./gen/../out`, the empty string) -/
+theorem tie_Context_outputPath (output : Bytes) (params : Nat) : (context_Context params output).outputPath = FilePath.clean output := by
+  rw [← tie_Context]; rfl
+
 theorem tie_push (c : Ctx) (p : Bytes) :
     c.push p = root_Push c p ∧ c.push p = dir_Push c p ∧ c.push p = prefix_Push c p := ⟨rfl, rfl, rfl⟩
 
